@@ -316,18 +316,123 @@ def sym_range(*a):
     return pyspec.vc_range(*a)
 
 
+_code_cache = {}
+
+
+def _instrumented(target):
+    from pyvc import instrument
+    loc = instrument.locate(target, None)
+    ck = (target, loc.sha256)
+    if ck not in _code_cache:
+        _code_cache[ck] = instrument.instrument(loc, ())[0]
+    return _code_cache[ck], loc
+
+
 def inline(target, extra=None):
     """the REAL body of another repository function, instrumented like the target and bound in the env
     (no loop contracts, so only loop-free callees or concrete iteration)"""
-    from pyvc import instrument, pyspec, npspec
-    loc = instrument.locate(target, None)
-    code, stats, text = instrument.instrument(loc, ())
+    from pyvc import pyspec, npspec
+    code, loc = _instrumented(target)
     g = pyspec.make_globals()
     g['np'] = npspec.module()
     g['__vc__'] = Runtime(None, None, None)
     g.update(extra or {})
     exec(code, g)
     return g[loc.node.name]
+
+
+class Memo:
+    """functools.lru_cache / functools.cache: a memo keyed by the HASH/EQ of the arguments.  Python atoms are keyed by
+    value; objects that hash by identity (numpy RandomState and other plain objects: proxies flagged
+    _vc_hash_identity) are keyed by id() - so a second call with the same OBJECT in a different STATE returns the
+    stale value, exactly as natively.  Anything else (symbolic numbers, opaque objects of unknown hash) fails closed.
+    Eviction (maxsize) is not modelled: more distinct keys than maxsize is out of subset."""
+
+    def __init__(self, fn, maxsize=None):
+        self.fn, self.memo, self.keep, self.maxsize = fn, {}, [], maxsize
+
+    def _k(self, x):
+        if x is None or isinstance(x, (bool, int, float, str, bytes)):
+            return ('v', type(x).__name__, x)
+        if isinstance(x, tuple):
+            return ('t',) + tuple(self._k(y) for y in x)
+        if getattr(x, '_vc_hash_identity', False):
+            return ('id', id(x))
+        raise OutOfSubset('memoised call keyed on %s (hash not modelled)' % type(x).__name__)
+
+    def __call__(self, *a, **k):
+        key = tuple(self._k(x) for x in a) + tuple((n, self._k(v)) for n, v in sorted(k.items()))
+        if key in self.memo:
+            return self.memo[key]
+        if self.maxsize is not None and len(self.memo) >= self.maxsize:
+            raise OutOfSubset('memo eviction')
+        self.keep.append((a, k))            # keep the key objects alive: id() must stay unique
+        r = self.fn(*a, **k)
+        self.memo[key] = r
+        return r
+
+
+class _Unmodelled:
+    def __init__(self, why):
+        self.why = why
+
+    def __call__(self, *a, **k):
+        raise OutOfSubset(self.why)
+
+
+def _decorate(fn, decorators, name):
+    """apply the decorators found in the tree (innermost first): caches are modelled, anything else fails closed"""
+    import ast
+    for d in reversed(decorators):
+        text = ast.unparse(d.func if isinstance(d, ast.Call) else d)
+        if text in ('lru_cache', 'functools.lru_cache', 'cache', 'functools.cache'):
+            maxsize = 128 if text.endswith('lru_cache') else None
+            if isinstance(d, ast.Call):
+                try:
+                    vals = [ast.literal_eval(a) for a in d.args] + [ast.literal_eval(k.value) for k in d.keywords if k.arg == 'maxsize']
+                    if vals:
+                        maxsize = vals[0]
+                except Exception:
+                    return _Unmodelled('decorator %s of %s' % (ast.unparse(d), name))
+            fn = Memo(fn, maxsize)
+        else:
+            return _Unmodelled('decorator %s of %s is not modelled' % (ast.unparse(d), name))
+    return fn
+
+
+def module_env(path, target_name, extra=None):
+    """every module-level function of the analysed module `path` (read from the tree), instrumented and bound so that
+    the target and the inlined callees can call same-module helpers (also ones an edit introduces); `extra` = stubs that
+    replace functions / supply other globals.  Decorators are honoured through _decorate."""
+    import ast
+    from pyvc import instrument, pyspec
+    extra = dict(extra or {})
+    src, tree = instrument._parse(path, None)
+    G = pyspec.make_globals()
+    G['np'] = np_module()
+    G['__vc__'] = Runtime(None, None, None)
+    G.update(extra)
+    out = {}
+    for n in tree.body:
+        if not isinstance(n, ast.FunctionDef):
+            continue
+        if n.name == target_name:
+            if n.decorator_list:
+                raise OutOfSubset('the function under contract is decorated (%s)' % ', '.join(ast.unparse(d) for d in n.decorator_list))
+            continue
+        if n.name in extra:
+            continue
+        try:
+            code, loc = _instrumented('%s::%s' % (path, n.name))
+            exec(code, G)
+            G[n.name] = out[n.name] = _decorate(G[n.name], n.decorator_list, n.name)
+        except OutOfSubset as e:
+            G[n.name] = out[n.name] = _Unmodelled('helper %s: %s' % (n.name, e))
+    out.update(extra)
+    return out
+
+
+TOOLS = 'elfi/model/tools.py'
 
 
 class CallLog:
@@ -405,7 +510,7 @@ class RunVectorized(Contract):
         self.label = (kinds or 'no-inputs') + (',constants=()' if empty_constants else '')
 
     def env(self, vc):
-        return {'np': np_module(), 'is_array': inline('elfi/utils.py::is_array'), 'range': sym_range}
+        return module_env(TOOLS, 'run_vectorized', {'np': np_module(), 'is_array': inline('elfi/utils.py::is_array'), 'range': sym_range})
 
     def setup(self, vc):
         kinds = self.kinds
@@ -556,7 +661,7 @@ class Vectorize(Contract):
 
     def env(self, vc):
         self.rv = Named('run_vectorized')
-        return {'partial': PartialSpec, 'run_vectorized': self.rv}
+        return module_env(TOOLS, 'vectorize', {'partial': PartialSpec, 'run_vectorized': self.rv})
 
     def setup(self, vc):
         op, c, d = Opaque(z3.Const('operation', Val)), Opaque(z3.Const('constants', Val)), Opaque(z3.Const('dtype', Val))
@@ -672,7 +777,9 @@ class StateVec:
 
 
 class RSProxy(Opaque):
-    """numpy RandomState; observable: word = get_state()[1][0] (get_state does not advance the generator)"""
+    """numpy RandomState; observable: word = get_state()[1][0] (get_state does not advance the generator);
+    hashes by identity, its state is mutable (`word` may be re-assigned by a ghost statement)"""
+    _vc_hash_identity = True
 
     def __init__(self, t, word):
         self.t, self.word = t, word
@@ -725,7 +832,7 @@ class PrepareSeed(Contract):
         self.label = mode
 
     def env(self, vc):
-        return {'get_sub_seed': gss_stub()}
+        return module_env(TOOLS, 'prepare_seed', {'get_sub_seed': gss_stub()})
 
     def setup(self, vc):
         x0 = Opaque(z3.Const('x0', Val))
@@ -763,7 +870,7 @@ class LemmaRows(Contract):
     fin = 4
 
     def env(self, vc):
-        return {'prepare_seed': inline('elfi/model/tools.py::prepare_seed', {'get_sub_seed': gss_stub()})}
+        return {'prepare_seed': module_env(TOOLS, None, {'get_sub_seed': gss_stub()})['prepare_seed']}
 
     def setup(self, vc):
         w, i, j = z3.Ints('state_word i j')
@@ -780,6 +887,36 @@ class LemmaRows(Contract):
         return [('two rows of one batch (same generator, different index_in_batch) get different seeds', z3.Implies(s.i != s.j, a.t != b.t)),
                 ('the seed is a function of (generator state word, row index) only', z3.And(a.t == SUBSEED(s.w, s.i), b.t == SUBSEED(s.w, s.j))),
                 ('0 <= seed < 2**31', z3.And(a.t >= 0, a.t < HIGH))]
+
+
+class LemmaState(Contract):
+    """the seed follows the STATE of the generator, not the generator object: same RandomState object, state changed
+    (re-seeded / advanced) between two calls of the real prepare_seed"""
+    target = '@verif/lemmas/c18_lemmas.py::lemma_seed_follows_generator_state'
+    prop = 'C18'
+    fin = 4
+
+    def env(self, vc):
+        def generator_changes_state(rs):
+            rs.word = self.w2
+        return {'prepare_seed': module_env(TOOLS, None, {'get_sub_seed': gss_stub()})['prepare_seed'], 'generator_changes_state': generator_changes_state}
+
+    def setup(self, vc):
+        w1, w2, i = z3.Ints('state_word state_word_after index_in_batch')
+        self.w2 = w2
+        vc.fin_bounds.extend([w1, w2, i])
+        rs = RSProxy(z3.Const('random_state', Val), w1)
+        s = NS(w1=w1, w2=w2, i=i)
+        return s, (rs, SInt(i), meta_entries(vc, s)), {}
+
+    def requires(self, s):
+        return [s.w1 >= 0, s.w1 < 2 ** 32, s.w2 >= 0, s.w2 < 2 ** 32, s.i >= 0, s.i < HIGH] + s.meta_requires
+
+    def ensures(self, s, result):
+        a, b = result
+        return [('first call: seed = sub_seed(state word at that call, row index)', a.t == SUBSEED(s.w1, s.i)),
+                ('second call on the SAME generator object after its state changed: seed = sub_seed(NEW state word, row index)',
+                 b.t == SUBSEED(s.w2, s.i))]
 
 
 # ---------------------------------------------------------------- stdout_to_array / run_external / external_operation
@@ -803,7 +940,7 @@ class StdoutToArray(Contract):
 
     def env(self, vc):
         self.fs = Recorder('np.fromstring')
-        return {'np': np_module({'fromstring': self.fs})}
+        return module_env(TOOLS, 'stdout_to_array', {'np': np_module({'fromstring': self.fs})})
 
     def setup(self, vc):
         s = NS(out=Opaque(z3.Const('stdout', Val)), sep=Opaque(z3.Const('sep', Val)), dt=Opaque(z3.Const('dtype', Val)))
@@ -870,8 +1007,7 @@ class RunExternal(Contract):
 
     def env(self, vc):
         self.sub = SubprocessSpec()
-        return {'subprocess': self.sub, 'unpack_meta': inline('elfi/model/tools.py::unpack_meta'),
-                'prepare_seed': inline('elfi/model/tools.py::prepare_seed', {'get_sub_seed': gss_stub()})}
+        return module_env(TOOLS, 'run_external', {'subprocess': self.sub, 'get_sub_seed': gss_stub()})
 
     def setup(self, vc):
         s = NS(cmd=CmdSpec(), pr=Recorder('process_result'), x=(Opaque(z3.Const('x0', Val)), Opaque(z3.Const('x1', Val))))
@@ -962,7 +1098,8 @@ class ExternalOperation(Contract):
     def env(self, vc):
         self.sub = SubprocessSpec()
         self.re, self.s2a = Named('run_external'), Named('stdout_to_array')
-        return {'partial': PartialSpec, 'run_external': self.re, 'stdout_to_array': self.s2a, 'subprocess': self.sub, 'np': np_module()}
+        return module_env(TOOLS, 'external_operation', {'partial': PartialSpec, 'run_external': self.re, 'stdout_to_array': self.s2a,
+                                                        'subprocess': self.sub, 'np': np_module()})
 
     def setup(self, vc):
         s = NS(cmd=Opaque(z3.Const('command', Val)), sep=Opaque(z3.Const('sep', Val)), pi=Opaque(z3.Const('prepare_inputs', Val)))
@@ -1009,7 +1146,7 @@ class ExternalOperation(Contract):
 
 CONTRACTS = [RunVectorized(k) for k in _all_kinds()] + [RunVectorized('A', empty_constants=True), RunVectorized('SA', empty_constants=True)] + \
     [Vectorize(), UnpackMeta('symbolic-meta'), UnpackMeta('concrete-meta'), UnpackMeta('no-meta'),
-     PrepareSeed('rs+index'), PrepareSeed('rs+index=None'), PrepareSeed('rs'), PrepareSeed('no-rs'), LemmaRows(), StdoutToArray(),
+     PrepareSeed('rs+index'), PrepareSeed('rs+index=None'), PrepareSeed('rs'), PrepareSeed('no-rs'), LemmaRows(), LemmaState(), StdoutToArray(),
      RunExternal(True, True), RunExternal(True, False), RunExternal(False, True), RunExternal(False, False),
      ExternalOperation('none'), ExternalOperation('str'), ExternalOperation('dtype'), ExternalOperation('callable')]
 
